@@ -1,10 +1,10 @@
 #!/bin/sh
 # usage: tools/recheck_seed.sh Cxx [checks...] : runs the checks against the stored seeded change and updates meta.json
-P=$1; shift; CHECKS=${*:-$P}
+D=$1; P=$(echo $D | cut -c1-3); shift; CHECKS=${*:-$P}
 cd /verif
-OUT=$(tools/try_mutant.sh /verif/seeded/$P/patch.diff $CHECKS 2>&1 | grep -E "^===|^VIOLATION|^OK|^KNOWN|apply failed")
+OUT=$(tools/try_mutant.sh /verif/seeded/$D/patch.diff $CHECKS 2>&1 | grep -E "^===|^VIOLATION|^OK|^KNOWN|apply failed")
 echo "$OUT"
-python3 - "$P" "$OUT" "$CHECKS" <<'PY'
+python3 - "$D" "$OUT" "$CHECKS" <<'PY'
 import sys, json
 p, out, checks = sys.argv[1:4]
 m = json.load(open(f'/verif/seeded/{p}/meta.json'))
